@@ -176,7 +176,27 @@ def clean_value(rules, env, k, stack=(), follow_single_use=True, _disc_seen=None
 # ----------------------------------------------------------------------------------------------
 # histories
 # ----------------------------------------------------------------------------------------------
-def gen_history(rng, rules, nops, cancel=False, threads=False, allow_restart=True, allow_revert=True, crash=False):
+def edit_program(rng, rules):
+    """a description edit: some derived rules get a new definition (and, as a client must, a new
+    signature), some only a new signature; input rules stay as they are"""
+    import copy
+    new = copy.deepcopy(rules)
+    derived = [k for k in sorted(rules) if rules[k].kind == 1]
+    if not derived:
+        return new
+    fresh = gen_program(rng, len(rules))
+    for _ in range(1 + rng.below(3)):
+        k = rng.choice(derived)
+        if rng.chance(1, 3) or k not in fresh or fresh[k].kind != 1:
+            new[k].sigBase = rules[k].sigBase + 1 + rng.below(3)       # signature only
+        else:
+            r = copy.deepcopy(fresh[k])
+            r.sigBase = rules[k].sigBase + 3 + rng.below(3)
+            new[k] = r
+    return new
+
+
+def gen_history(rng, rules, nops, cancel=False, threads=False, allow_restart=True, allow_revert=True, crash=False, reprogram=False):
     """list of op dicts.  Builds carry a random completion schedule; with `cancel`, some builds are
     cancelled at a random event or hook point."""
     keys = sorted(rules)
@@ -205,6 +225,9 @@ def gen_history(rng, rules, nops, cancel=False, threads=False, allow_restart=Tru
             ops.append({"op": "M", "slot": k, "val": v})
         elif c == 4 and rng.chance(1, 2):
             ops.append({"op": "M", "slot": FLAG_OFFSET + rng.below(3), "val": rng.below(2)})
+        elif c == 5 and reprogram and rng.chance(1, 2):
+            rules = edit_program(rng, rules)
+            ops.append({"op": "P", "rules": rules})
         elif c == 5 and allow_restart:
             if rng.chance(1, 5):
                 k = rng.choice(derived)
@@ -249,6 +272,10 @@ def op_line(o):
         return " ".join(str(x) for x in t)
     if o["op"] == "O":
         return "O %d" % o["key"]
+    if o["op"] == "P":
+        # a new program (the build description was edited): the harness starts a new engine on the same database
+        rs = o["rules"]
+        return "\n".join(["P %d" % len(rs)] + [rs[k].line() for k in sorted(rs)])
     raise ValueError(o)
 
 
@@ -260,7 +287,7 @@ class Case:
         """program + ops; an `O key` oracle op is inserted after every build"""
         out = ["W", "P %d" % len(self.rules)] + [self.rules[k].line() for k in sorted(self.rules)]
         for o in self.ops:
-            out.append(op_line(o))
+            out += op_line(o).split("\n")
             if o["op"] == "B":
                 out.append("O %d" % o["key"])
         return out
@@ -316,7 +343,7 @@ def model_lines(case, houts):
             out.append("T " + houts[i])
             i += 1
         else:
-            out.append(op_line(o))
+            out += op_line(o).split("\n")
             i += 1
     return out
 
@@ -372,7 +399,10 @@ def analyse_case(case, houts, focus):
     i = 2
     last_build_ok_key = None
     changed_since = True
+    rules_now = case.rules
     for oi, o in enumerate(case.ops):
+        if o["op"] == "P":
+            rules_now = o["rules"]
         if o["op"] == "M":
             env[o["slot"]] = o["val"]
             changed_since = True
@@ -383,8 +413,10 @@ def analyse_case(case, houts, focus):
             st["crashes"] = st.get("crashes", 0) + 1
             if not houts[i].endswith("KILL"):
                 fails.append({"what": "crash run did not end in a kill: " + houts[i][-200:], "kind": "harness", "input": {"case_op": oi}})
-        if o["op"] in ("E", "K"):
+        if o["op"] in ("E", "K", "P"):
             st["restarts"] += 1
+            if o["op"] == "P":
+                st["reprograms"] = st.get("reprograms", 0) + 1
             # a new process knows what the database knows
             sh.uptodate = dict(sh.completed)
             sh.value = dict(sh.dbvalue)
@@ -432,7 +464,7 @@ def analyse_case(case, houts, focus):
                     if reason == 0:
                         ok = k not in sh.uptodate or k in sh.interrupted
                     elif reason == 1:
-                        ok = k in sh.uptodate and sh.sig_at_complete.get(k) != (case.rules[k].sigBase + env.get(SIG_OFFSET + k, 0) if k in case.rules else 0)
+                        ok = k in sh.uptodate and sh.sig_at_complete.get(k) != (rules_now[k].sigBase + env.get(SIG_OFFSET + k, 0) if k in rules_now else 0)
                     elif reason == 2:
                         ok = valid_seen.get(k) is False
                     elif reason == 3:
@@ -491,7 +523,7 @@ def analyse_case(case, houts, focus):
                 # C01: every input value handed to a task is the current (clean) value of that input
                 if focus in ("C01", "all"):
                     try:
-                        cv = clean_value(case.rules, env, key, follow_single_use=False)
+                        cv = clean_value(rules_now, env, key, follow_single_use=False)
                         if cv != v:
                             fails.append({"what": "stale input: key %d handed to task %d with value %d, clean value is %d" % (key, k, v, cv),
                                           "kind": "stale-input", "input": where})
@@ -542,7 +574,7 @@ def analyse_case(case, houts, focus):
                     sh.interrupted.discard(k)
                     sh.dbvalue[k] = sh.value.get(k, 0)
                     sh.dbchanged[k] = sh.changed.get(k, 0)
-                    sh.sig_at_complete[k] = (case.rules[k].sigBase + env.get(SIG_OFFSET + k, 0)) if k in case.rules else 0
+                    sh.sig_at_complete[k] = (rules_now[k].sigBase + env.get(SIG_OFFSET + k, 0)) if k in rules_now else 0
             elif t == "DS":
                 nd = int(e[6])
                 sh.deps[int(e[1])] = [(int(e[7 + 3 * j]), e[8 + 3 * j] == "1", e[9 + 3 * j] == "1") for j in range(nd)]
@@ -573,7 +605,7 @@ def analyse_case(case, houts, focus):
         # C01 / C07 oracle against a brand-new engine (harness `O` op) and the python reference
         def ref(strict):
             try:
-                return clean_value(case.rules, env, o["key"], follow_single_use=strict), False
+                return clean_value(rules_now, env, o["key"], follow_single_use=strict), False
             except (Cyclic, RecursionError):
                 return None, True
         cv_strict, cyclic_strict = ref(True)
@@ -597,10 +629,10 @@ def analyse_case(case, houts, focus):
             # C02: null build executes nothing (rules that declare themselves invalid excepted)
             if not changed_since and last_build_ok_key == o["key"]:
                 st["null_builds"] += 1
-                bad = [k for k in created if not (k in case.rules and (case.rules[k].validMode == 1 or
-                        (case.rules[k].validMode == 2 and env.get(FLAG_OFFSET + case.rules[k].validArg, 0) != 0)))]
+                bad = [k for k in created if not (k in rules_now and (rules_now[k].validMode == 1 or
+                        (rules_now[k].validMode == 2 and env.get(FLAG_OFFSET + rules_now[k].validArg, 0) != 0)))]
                 # dependents of always-invalid rules whose value changed may legitimately re-run
-                if bad and not any(case.rules[k].validMode for k in created if k in case.rules):
+                if bad and not any(rules_now[k].validMode for k in created if k in rules_now):
                     fails.append({"what": "null build of %d executed rules %s" % (o["key"], bad), "kind": "null-build-ran", "input": where})
             last_build_ok_key = o["key"]
             changed_since = False
